@@ -22,6 +22,7 @@ inductive Attr where
   | ints (l : List Int)
   | tensor (tok : String)
   | opaque (id : String)
+  | ref (name : String)      -- attribute reference inside a function body (`ref_attr_name`); its value is None
   deriving DecidableEq, Repr, Inhabited
 
 mutual
